@@ -117,20 +117,86 @@ theorem reencode_consumed (s : Bytes) (r : Request) (n : Nat)
 
 /-- The decoders' result depends only on the byte stream, never on its fragmentation into
     reads (any number of chunks, including empty ones = zero-length reads; EOF after the
-    last chunk or delivered with it). -/
-theorem fragment_independent_request (cs : List Bytes) :
+    last chunk or delivered with it) — for every fragmentation a reader that makes progress
+    produces: at most `maxEmptyReads` = 100 zero-length reads in a row (`stallFree`). -/
+theorem fragment_independent_request (cs : List Bytes) (h : stallFree 0 cs = true) :
     Request.decodeChunked cs = Request.decode cs.flatten := by
-  simp [Request.decodeChunked, Request.decode, decodeChunks_eq_decodePure]
+  simp [Request.decodeChunked, Request.decode, decodeScan_eq_decodeChunks _ _ _ _ h, decodeChunks_eq_decodePure]
 
-theorem fragment_independent_response (cs : List Bytes) :
+theorem fragment_independent_response (cs : List Bytes) (h : stallFree 0 cs = true) :
     Response.decodeChunked cs = Response.decode cs.flatten := by
-  simp [Response.decodeChunked, Response.decode, decodeChunks_eq_decodePure]
+  simp [Response.decodeChunked, Response.decode, decodeScan_eq_decodeChunks _ _ _ _ h, decodeChunks_eq_decodePure]
 
 /-- Two fragmentations of the same stream decode alike. -/
-theorem fragment_independent (cs ds : List Bytes) (h : cs.flatten = ds.flatten) :
+theorem fragment_independent (cs ds : List Bytes) (h : cs.flatten = ds.flatten)
+    (hc : stallFree 0 cs = true) (hd : stallFree 0 ds = true) :
     Request.decodeChunked cs = Request.decodeChunked ds ∧
     Response.decodeChunked cs = Response.decodeChunked ds := by
-  simp [fragment_independent_request, fragment_independent_response, h]
+  simp [fragment_independent_request, fragment_independent_response, h, hc, hd]
+
+/-- The one way fragmentation does matter (bufio's guard against a reader that makes no
+    progress): when the stream read so far is incomplete and 101 zero-length reads follow in a
+    row, the decoder fails closed — it never invents a request. -/
+theorem stalled_reader_is_refused (first : Bytes) (rest : List Bytes) (n : Nat) (hn : n > maxEmptyReads)
+    (hm : scan first false = .more) (hne : first ≠ []) :
+    Request.decodeChunked (first :: (List.replicate n [] ++ rest)) = none := by
+  have h0 : scan ([] : Bytes) false = .more := by simp [scan]
+  have hf : first.isEmpty = false := by simpa using hne
+  unfold Request.decodeChunked decodeScan
+  simp only [h0, hf, Bool.false_eq_true, if_false, List.nil_append]
+  rw [decodeScan_stalled 3 first rest hm n 0 (by unfold maxEmptyReads; omega) (by omega)]
+
+/-- Whatever the fragmentation, stalls included: a request the chunked decoder returns is the
+    request the stream decodes to (the guard can only turn a result into an error). -/
+theorem chunked_result_is_stream_result (cs : List Bytes) (r : Request × Nat)
+    (h : Request.decodeChunked cs = some r) : Request.decode cs.flatten = some r := by
+  have key : ∀ (k : Nat) (buf : Bytes) (cs : List Bytes) (e : Nat) (x : List Bytes × Nat),
+      decodeScan k buf cs e = some x → decodeChunks k buf cs = some x := by
+    intro k buf cs e
+    fun_induction decodeScan k buf cs e with
+    | case1 => intro x hx; simpa [decodeChunks] using hx
+    | case2 k buf e adv p hs ih =>
+      intro x hx
+      simp only [decodeChunks, hs]
+      simp only [Option.map_eq_some_iff] at hx ⊢
+      obtain ⟨y, hy, rfl⟩ := hx
+      exact ⟨y, ih y hy, rfl⟩
+    | case3 k buf e hs => intro x hx; simp at hx
+    | case4 k buf c cs e adv p hs ih =>
+      intro x hx
+      simp only [decodeChunks, hs]
+      simp only [Option.map_eq_some_iff] at hx ⊢
+      obtain ⟨y, hy, rfl⟩ := hx
+      exact ⟨y, ih y hy, rfl⟩
+    | case5 => intro x hx; simp at hx
+    | case6 => intro x hx; simp at hx
+    | case7 k buf c cs e hc hle h1 h2 ih =>
+      intro x hx
+      have hce : c = [] := by simpa using hc
+      subst hce
+      have := ih x hx
+      conv => lhs; unfold decodeChunks
+      split
+      · rename_i adv p hh; exact absurd hh (h1 adv p)
+      · rename_i hh; exact absurd hh h2
+      · simpa using this
+    | case8 k buf c cs e hc h1 h2 ih =>
+      intro x hx
+      have := ih x hx
+      conv => lhs; unfold decodeChunks
+      split
+      · rename_i adv p hh; exact absurd hh (h1 adv p)
+      · rename_i hh; exact absurd hh h2
+      · exact this
+  unfold Request.decodeChunked at h
+  unfold Request.decode
+  split at h
+  · rename_i ps n hd
+    have := key 4 [] cs 0 (ps, n) hd
+    rw [decodeChunks_eq_decodePure] at this
+    simp only [List.nil_append] at this
+    simp only [this]; exact h
+  · simp at h
 
 /-- The PAM module's request bytes are the Go encoder's bytes for the clipped fields. -/
 theorem pam_encoder_agrees (user pw : Bytes) :
@@ -145,7 +211,10 @@ example : fieldsOk ⟨[97, 108, 105, 99, 101], [115, 51], [105, 109, 97, 112], [
   simp [fieldsOk, maxLen]
 example : Request.decodeChunked [[0], [5, 97], [108, 105], [], [99, 101, 0, 1], [120, 0, 0, 0, 0, 7]]
     = some (⟨[97, 108, 105, 99, 101], [120], [], []⟩, 14) := by
-  rw [fragment_independent_request]; decide
+  rw [fragment_independent_request _ (by decide)]; decide
+-- a run of exactly 100 zero-length reads is still a well-behaved reader; 101 are not
+example : stallFree 0 ([0] :: (List.replicate 100 [] ++ [[1, 65]])) = true := by decide
+example : stallFree 0 ([0] :: (List.replicate 101 [] ++ [[1, 65]])) = false := by decide
 example : Request.decode [1, 1, 0] = none := by decide   -- 257-byte length prefix
 
 end Whawty.Sasl.C13
